@@ -159,6 +159,9 @@ def install(lab):
 
         def Thread(self, target=None, args=(), **kw):
             name = getattr(target, '__name__', 'thread')
+            if type(getattr(target, '__self__', None)).__name__ == 'Context' and args:
+                # contextvars.Context.run(func, ...): the actor is func
+                name = getattr(args[0], '__name__', name)
 
             def run(*a):
                 lab.local.role = name
